@@ -1,14 +1,25 @@
-//! (rules to be transcribed)
+//! MT110 — documented rules (doc comments of validate_* in /repo/src/messages/mt110.rs, SR2025 MT110 C1, C2)
 use super::*;
 
-pub fn expected(_v: &RView) -> Expect {
+pub fn expected(v: &RView) -> Expect {
     let mut e = Expect::default();
-    // until transcribed: every code is undetermined (no verdict)
-    e.undet("*");
+    let seqs = v.seqs();
+    // C1 (T10): the repetitive sequence (21 .. 59a) must not be present more than ten times
+    e.must_if(seqs.len() > 10, "T10");
+    // C2 (C02): the currency code in 32a must be the same for all occurrences of the field in the message
+    let ccys: BTreeSet<String> = all(&v.everything(), "32[AB]").iter().map(|f| ccy_of(f)).collect();
+    e.must_if(ccys.len() > 1, "C02");
     e
 }
 
 pub fn content_hook(tag: &str, src: &mut crate::choice::Src) -> Option<String> {
-    let _ = (tag, src);
-    None
+    // 32a: mostly one currency so that both "all equal" and "one differs" (first, middle or last) occur
+    match tag {
+        "32A" | "32B" => {
+            let c = *src.pick(&["USD", "USD", "USD", "USD", "EUR", "USD", "USD", "GBP"]);
+            let a = *src.pick(&["100,", "250,50", "1,", "99,99"]);
+            if tag == "32A" { Some(format!("{}{c}{a}", crate::spec::gen_date6(src))) } else { Some(format!("{c}{a}")) }
+        }
+        _ => None,
+    }
 }
